@@ -61,17 +61,19 @@ Qed.
 (* metadata / content of one inode inside, not D itself *)
 Lemma step_put_keep T b f i n n' :
   wf f -> b <= f_next f -> reach f i -> i <> D -> get f i = Some n ->
+  (b <= i \/ is_dir f i = true) ->
   ktag (i_kind n') = ktag (i_kind n) ->
   (forall p es, i_kind n = KDir p es -> i_kind n' = KDir p es) ->
   step T b f (put f i n').
 Proof.
-  intros W Hb Hr HD Hg Ht Hk.
+  intros W Hb Hr HD Hg Hbi Ht Hk.
   assert (Hd := dir_of_put_keep f i n n' Hg Ht Hk).
   assert (He := ents_same f _ Hd).
   assert (Hlt : i < f_next f) by (apply (reach_lt D f i W Hr)).
   constructor; auto.
   - simpl. lia.
   - intros j Hj _. apply get_put_other. intro; subst; auto.
+  - intros j Hj Hdj. apply get_put_other. intro; subst. destruct Hbi; [lia|congruence].
   - intros j Hj. left. apply (reach_same_ents f _ He). exact Hj.
   - intros j _. destruct (N.eq_dec j i) as [->|Hne].
     + rewrite get_put_same, Hg. simpl. rewrite Ht. reflexivity.
@@ -120,6 +122,7 @@ Proof.
   constructor; auto.
   - lia.
   - intros i Hi Hl'. unfold f1. apply get_alloc_other. lia.
+  - intros i Hi _. unfold f1. apply get_alloc_other. lia.
   - intros i Hi. left. apply H4. exact Hi.
   - intros i Hi. unfold f1. rewrite get_alloc_other by lia. reflexivity.
   - intros j m _ _. rewrite H3. reflexivity.
@@ -201,6 +204,8 @@ Proof.
   constructor; auto.
   - rewrite Ef'. simpl. lia.
   - intros i Hi _. rewrite Ef'. apply get_put_other. intro; subst; auto.
+  - intros i _ Hdi. rewrite Ef'. apply get_put_other. intro; subst.
+    unfold is_dir in Hdi. rewrite Hdir in Hdi. discriminate.
   - intros i Hi. destruct (Hent i Hi) as [H|(H & _)]; auto.
   - intros j n Hj HTn. destruct (N.eq_dec j dd) as [->|Hne].
     + rewrite Hes, Hes0. apply HT. exact HTn.
@@ -263,6 +268,8 @@ Proof.
   constructor; auto.
   - simpl. lia.
   - intros j Hj _. apply get_put_other. intro; subst; auto.
+  - intros j _ Hdj. apply get_put_other. intro; subst.
+    unfold is_dir, dir_of in Hdj. rewrite Hg in Hdj. discriminate.
   - intros j _. unfold f'. destruct (N.eq_dec j i) as [->|Hne].
     + rewrite get_put_same, Hg. reflexivity.
     + rewrite get_put_other by auto. reflexivity.
